@@ -3,8 +3,9 @@
 # usage: mutants.sh [tier] [patch-name-substring]      (tier: quick | thorough, default quick)
 # For every /verif/mutants/c02-*.patch: scratch worktree of /repo at HEAD, apply the patch, run the
 # repository's own tests of the touched package, run the check against the worktree (no evidence),
-# print exit code and signatures. Because the unchanged tree already violates C02 (D7, see
-# FINDINGS.md) each mutant is run twice: on HEAD (rule 7) and on HEAD + d7-fix.patch (isolates it).
+# print exit code and signatures. While the tree still had defect D7 (FINDINGS.md; fixed in /repo by
+# commit b270ef3) each mutant was run twice: on HEAD (rule 7) and on HEAD + d7-fix.patch (isolates it).
+# When d7-fix.patch no longer applies (D7 fixed at HEAD) only the first mode runs.
 export GOFLAGS=-mod=mod GOPROXY=off GOSUMDB=off GOTOOLCHAIN=local
 TIER=${1:-quick}
 ONLY=${2:-}
@@ -29,14 +30,16 @@ run_one() { # name patchfile withfix
   )
   git -C /repo worktree remove --force "$wt"
 }
+WITHFIX=1
+git -C /repo apply --check "$HERE/d7-fix.patch" 2>/dev/null || WITHFIX=0
 if [ -z "$ONLY" ]; then
   run_one baseline "" 0
-  run_one baseline "" 1
+  [ $WITHFIX = 1 ] && run_one baseline "" 1
 fi
 for p in /verif/mutants/c02-*.patch; do
   name=$(basename "$p" .patch)
   case "$name" in *"$ONLY"*) ;; *) continue;; esac
   run_one "$name" "$p" 0
-  run_one "$name" "$p" 1
+  [ $WITHFIX = 1 ] && run_one "$name" "$p" 1
 done
 git -C /repo worktree prune
